@@ -963,6 +963,9 @@ func (fv *FV) applyContract(e *Env, x *ast.CallExpr, u *FuncUnit, recv *Value, a
 		t := fv.specTermA(e, cl, &specCtx{old: pre, bind: bind, results: results, preAlloc: pre.alloc})
 		fv.assume(e, t)
 	}
+	for _, cl := range c.Stable {
+		fv.assume(e, fv.specTermA(e, cl, &specCtx{old: pre, bind: bind, results: results, preAlloc: pre.alloc}))
+	}
 	for _, cl := range c.Defines {
 		t := fv.specTermA(e, cl, &specCtx{old: pre, bind: bind, results: results, preAlloc: pre.alloc})
 		fv.assume(e, t)
